@@ -31,3 +31,33 @@ def Sorted (l : List Diag) : Prop := l.Pairwise (fun a b => less b a = false)
 def Wf (d : Diag) : Prop := d.line ≠ some 0 ∧ d.col ≠ some 0
 
 end Yardl.Det
+
+/-! ### regeneration: every back end writes through `iocommon.WriteFileIfNeeded` -/
+
+namespace Yardl.Det
+
+/-- an output tree: path code ↦ content -/
+abbrev Fs := List (Nat × List UInt8)
+
+def Fs.get (fs : Fs) (p : Nat) : Option (List UInt8) :=
+  match fs.find? (fun e => e.1 == p) with
+  | some e => some e.2
+  | none => none
+
+def Fs.set (fs : Fs) (p : Nat) (c : List UInt8) : Fs :=
+  (p, c) :: fs.filter (fun e => e.1 != p)
+
+/-- `WriteFileIfNeeded`: the file is (re)written — and its modification time changes — exactly when it does not
+    exist or holds other bytes; `touched` collects the paths written -/
+def writeIfNeeded (st : Fs × List Nat) (f : Nat × List UInt8) : Fs × List Nat :=
+  if st.1.get f.1 = some f.2 then st else (st.1.set f.1 f.2, f.1 :: st.2)
+
+/-- one `yardl generate`: the generators emit `files` (path, content) in order -/
+def generate (files : List (Nat × List UInt8)) (fs : Fs) : Fs × List Nat :=
+  files.foldl writeIfNeeded (fs, [])
+
+def pathsDistinct : List (Nat × List UInt8) → Bool
+  | [] => true
+  | f :: r => !(r.any fun g => g.1 == f.1) && pathsDistinct r
+
+end Yardl.Det
